@@ -89,19 +89,40 @@ class Compiled:
         return Sim(self.text, temporaries=self.temps, **kw)
 
 
-def compile_top(cls, **kw):
+class CompileTimeout(BaseException):
+    """the compiler did not finish within the watchdog budget (some program shapes make its open-block
+    algorithm exponential): inconclusive for that design, never a violation"""
+
+
+def _alarm(signum, frame):
+    raise CompileTimeout()
+
+
+def compile_top(cls, timeout=20, **kw):
     """Any exception out of the compiler is a rejection; its stdout diagnostics are captured."""
+    import signal
+    import threading
     repo_on_path()
     from cohdl import std
     buf = io.StringIO()
+    use_alarm = threading.current_thread() is threading.main_thread()
+    if use_alarm:
+        old = signal.signal(signal.SIGALRM, _alarm)
+        signal.setitimer(signal.ITIMER_REAL, timeout)
     try:
         with contextlib.redirect_stdout(buf):
             lib = std.VhdlCompiler.to_vhdl_library(cls, **kw)
             text = str(lib.write())
     except (KeyboardInterrupt, SystemExit):
         raise
+    except CompileTimeout:
+        raise Rejected('CompileTimeout', f'compiler watchdog ({timeout}s)', buf.getvalue()) from None
     except BaseException as e:      # noqa
         raise Rejected(type(e).__name__, str(e), buf.getvalue()) from None
+    finally:
+        if use_alarm:
+            signal.setitimer(signal.ITIMER_REAL, 0)
+            signal.signal(signal.SIGALRM, old)
     return Compiled(text, lib)
 
 
@@ -297,9 +318,10 @@ def run_check(mod, tier, seed, replay=None):
         'wall_s': round(time.time() - t0, 2),
         'violations': len(unlisted),
     }
-    os.makedirs(os.path.join(VERIF, 'evidence'), exist_ok=True)
-    with open(os.path.join(VERIF, 'evidence', f"{pid}.json"), 'w') as f:
-        json.dump(ev, f, indent=1, default=str)
+    if not os.environ.get('VERIF_NOEVIDENCE'):     # (mutation drills must not overwrite the evidence of /repo)
+        os.makedirs(os.path.join(VERIF, 'evidence'), exist_ok=True)
+        with open(os.path.join(VERIF, 'evidence', f"{pid}.json"), 'w') as f:
+            json.dump(ev, f, indent=1, default=str)
     print(f"{pid} {tier} seed={seed}: cases={len(cases)} evaluations={evals} distinct_nontrivial={len(sigs)} "
           f"violations={len(unlisted)} known={sum(n for _, n, _ in listed.values())} wall={ev['wall_s']}s")
     keys = [k for k in sorted(cnt) if not k.startswith('_')]
